@@ -39,10 +39,12 @@ TSpec == TInit /\ [][TNext]_tvars
 
 AtEnd == pc = "done"
 O == E.obs
-Core(r) == [status |-> r.status, calc |-> r.calc, ds |-> r.ds, fc |-> [src |-> r.fc.src, layout |-> r.fc.layout], nac |-> r.nac]
+Core(r) == [status |-> r.status, calc |-> r.calc, ds |-> r.ds, fc |-> [src |-> r.fc.src, layout |-> r.fc.layout], nac |-> r.nac,
+            cell |-> r.cell, np |-> r.np]
 UnitsClass(c) == IF c = "qe" THEN "qe" ELSE "std"
 (* the logged record in the vocabulary of the requirement *)
-R == [status |-> O.status, calc |-> O.calc, units |-> O.calc, ds |-> O.ds, fc |-> O.fc, nac |-> O.nac]
+R == [status |-> O.status, why |-> O.why, calc |-> O.calc, units |-> O.calc, ds |-> O.ds, fc |-> O.fc, nac |-> O.nac,
+      cell |-> O.cell, np |-> O.np]
 OkObs == O.status = "ok"
 
 (* ---- requirement on the logged outcome ---- *)
@@ -55,12 +57,23 @@ ImplPhononsFromSaved == AtEnd => ReqPhononsFromSaved(E.eo, E.es, E.ea, E.ee, R) 
 ImplSaveRule == AtEnd => ReqSaveRule(E.eo, E.es, E.w)
 ImplNoAmbientCapture == AtEnd => ReqNoAmbientCapture(E.eo, E.es, E.ea, R) /\ ReqCellArgument(E.ea, R)
 ImplExplicitBeatsAmbient == AtEnd => ReqExplicitBeatsAmbient(E.ea, R)
-(* loading what save() wrote never fails; the one exception is the missing solver for a   *)
-(* type-2 dataset with forces offered by some source                                       *)
+(* loading what save() wrote never fails; the exceptions are the missing solver for a      *)
+(* type-2 dataset with forces offered by some source, a structure file read with another  *)
+(* calculator's reader, and a tolerance tighter than the calculation's handed to load()   *)
 Type2Offered == (E.eo.ds.type = 2 /\ E.eo.ds.forces /\ On(E.es.fs)) \/ E.ea.fsFile = 2 \/ E.ee.FS = 2
 ImplLoads == AtEnd /\ O.status = "raised" =>
-               /\ ~HasFcSolver /\ Type2Offered /\ E.ea.produceFc
-               /\ O.err = "ForceCalculatorRequiredError"
+               \/ O.why = "solver" /\ ~HasFcSolver /\ Type2Offered /\ E.ea.produceFc
+               \/ O.why = "structure" /\ CellSrc(E.ea) \in {"ucfile", "scfile"} /\ Reader(E.ea.calcArg) # E.ea.fmt
+               \/ O.why = "symmetry" /\ E.eo.cell.fragile /\ E.eo.np.tol = "loose"
+                                      /\ (E.ea.np.tol = "default" \/ ~FromFile(E.ea))
+(* what save() does not record *)
+ImplAtomOrder == AtEnd => ReqAtomOrder(E.eo, E.ea, R)
+ImplTolerance == AtEnd => ReqTolerance(E.eo, E.ea, R)
+ImplSameOptions == AtEnd => ReqSameOptions(E.eo, E.ea, R)
+ImplCellPriority == AtEnd => ReqCellPriority(E.eo, E.ea, R)
+(* the declared effect of an own frequency factor: the reloaded frequencies are the      *)
+(* original ones times default/own (or own/default), nothing else (scale as observed)     *)
+ImplPhononScale == AtEnd /\ OkObs /\ O.q.phonons >= 0 => O.scale = PhononScale(E.eo, R)
 
 (* the crystal: cells, matrices, symbols (extended ones included), masses, moments *)
 ImplCells ==
@@ -80,16 +93,18 @@ ImplPhonons == AtEnd /\ OkObs => O.q.phonons <= 1
 (* whenever the saved file determines the force data and NAC of the reloaded object, phonons were compared *)
 Comparable ==
   /\ OkObs /\ E.ea.calcArg = "none" /\ FromFile(E.ea)
-  /\ (O.fc.src = "yaml" \/ (O.fc.src = "produced" /\ O.fc.sym /\ O.ds.src = "yaml"))
+  /\ O.np.order = Order(E.eo, E.eo.np.snf)
+  /\ (O.fc.src = "yaml" \/ (O.fc.src = "produced" /\ O.fc.sym /\ O.ds.src = "yaml" /\ DerivedFcComparable(E.eo, R)))
   /\ ((E.eo.nac.kind = "none" /\ O.nac.src = "none") \/ O.nac.src = "yaml")
 (* -2: comparable but skipped for the time budget (costly Gonze-Lee NAC), decided by the harness's seed *)
 ImplPhononsCompared == AtEnd /\ Comparable => O.q.phonons # -1
 
 (* ---- the logged outcome is the machine's outcome ---- *)
-ConformsWritten == AtEnd => E.w = [calc |-> yaml.calc, ds |-> yaml.ds, fc |-> yaml.fc, nac |-> yaml.nac]
+ConformsWritten == AtEnd => E.w = [calc |-> yaml.calc, ds |-> yaml.ds, fc |-> yaml.fc, nac |-> yaml.nac,
+                                   tol |-> yaml.tol, ffac |-> yaml.ffac]
 (* container: what the bytes of the file are; named: what its name says *)
 ConformsContainer == AtEnd => E.container = yaml.container /\ E.named = yaml.container
-ConformsStatus == AtEnd => O.status = ld.status
+ConformsStatus == AtEnd => O.status = ld.status /\ O.why = ld.why
 ConformsLoaded == AtEnd /\ OkObs /\ ld.status = "ok" => Core(R) = Core(ld)
 ConformsSymmetrized == AtEnd /\ OkObs /\ ld.status = "ok" /\ ld.fc.src = "produced" => O.fc.sym = ld.fc.sym
 =============================================================================
